@@ -3,7 +3,7 @@ import ast
 
 from ..model import AnalysisError, dotted, unparse
 from ..structfmt import parse_format, local_defs, resolve_local, linform, lin_eq, SIZES
-from ..util import U, enum_paths, walk_no_nested, expand_events
+from ..util import FACTS, U, enum_paths, walk_no_nested, expand_events
 from ..paths import call_attr, call_name
 from .. import wire, bitvec
 
@@ -363,16 +363,16 @@ def r5_tables(ctx):
   rp = enum_paths(ctx, r)
   seen = {}
   for ev, ex in rp:
-    conds = [(U(e.node), e.info) for e in ev if e.kind == 'cond']
+    conds = FACTS(ev)
     calls = [call_name(e.node) for e in ev if e.kind == 'call']
     key = None
-    if ('status == Rstatus.OK', True) in conds:
+    if ('status==Rstatus.OK', True) in conds:
       key = 'OK'
       ok = any(c and c.endswith('DeserializeThriftCall') for c in calls)
-    elif ('status == Rstatus.NACK', True) in conds:
+    elif ('status==Rstatus.NACK', True) in conds:
       key = 'NACK'
       ok = any(c == 'ServerError' for c in calls) and not any(c and c.endswith('DeserializeThriftCall') for c in calls)
-    elif ('status == Rstatus.OK', False) in conds:
+    elif ('status==Rstatus.OK', False) in conds:
       key = 'ERROR'
       ok = any(c == 'ServerError' for c in calls) and any(c and c.endswith('.decode') for c in calls)
     if key:
